@@ -71,7 +71,7 @@ def _spec(front, txt, vs):
     return dt.make_spec('combined', txt, vs)
 
 
-def h_variant(f, canon, variant, N, online=False, front='stl', may_reject=False):
+def h_variant(f, canon, variant, N, online=False, front='stl'):
     """f: intended AST (oracle); canon / variant: full specification texts"""
     f = T(f)
     vs = sorted(variables(f))
@@ -80,16 +80,7 @@ def h_variant(f, canon, variant, N, online=False, front='stl', may_reject=False)
         A = env.A
         w = dt.trace(env, vs, N)
         sc = _spec('stl', canon, vs)
-        try:
-            sv = _spec(front, variant, vs)
-        except Exception as e:
-            import rtamt
-            if may_reject and isinstance(e, rtamt.RTAMTException) and 'Ambiguity' in str(e):
-                # 'a op b - c': the generated parser reports the binary/unary minus ambiguity and rtamt turns the report
-                # into a clean rejection; no grouping happens, so nothing contradicts the precedence clause
-                env.observe('rejected', 1)
-                return [('rejected-cleanly', A.true)]
-            raise
+        sv = _spec(front, variant, vs)          # a variant that does not parse does not denote the same monitor: the exception is the finding
         gc = [p[1] for p in dt.offline(sc, w, N)]
         gv = [p[1] for p in dt.offline(sv, w, N)]
         env.observe('variant', gv)
@@ -111,10 +102,10 @@ def obligations(tier, rng):
     order = precedence()
     rank = {lab: i for i, lab in enumerate(order)}
 
-    def add(name, f, canon, variant, front='stl', may_reject=False):
+    def add(name, f, canon, variant, front='stl'):
         online = (not refsem.has_future(f)) and front == 'stl'
         out.append(ob('C15', 'variant', '%s/%s  ~  %s' % (name, variant.replace('\n', ' '), canon), f=f, canon=canon, variant=variant, N=N,
-                      online=online, front=front, may_reject=may_reject))
+                      online=online, front=front))
 
     # 1. aliases
     for tok, lits in sorted(al.items()):
@@ -172,7 +163,9 @@ def obligations(tier, rng):
             f = (b, (a, X, Y), Z)
         else:
             f = (a, X, (b, Y, Z))
-        add('precedence', f, 'out = ' + text(f), 'out = x %s y %s z' % (SYM[a], SYM[b]), may_reject=(b == 'sub' and ra > rb))
+        add('precedence', f, 'out = ' + text(f), 'out = x %s y %s z' % (SYM[a], SYM[b]))
+        if not ({a, b} & {'mul', 'div', 'add', 'sub', 'leq', 'gt', 'eq'}) or not quick:
+            add('precedence-ltl', f, 'out = ' + text(f), 'out = x %s y %s z' % (SYM[a], SYM[b]), front='ltl')      # the LTL front end has its own generated parser
     for p in prefix:
         for b in binops:
             rp, rb = rank[LABEL[p]], rank[LABEL[b]]
@@ -180,7 +173,19 @@ def obligations(tier, rng):
                 f = (b, (p, X), Y)
             else:
                 f = (p, (b, X, Y))
-            add('precedence-prefix', f, 'out = ' + text(f), 'out = %s x %s y' % (SYM[p], SYM[b]), may_reject=(b == 'sub' and rp > rb))
+            add('precedence-prefix', f, 'out = ' + text(f), 'out = %s x %s y' % (SYM[p], SYM[b]))
+            add('precedence-prefix-ltl', f, 'out = ' + text(f), 'out = %s x %s y' % (SYM[p], SYM[b]), front='ltl')
+    # a prefix operator in the middle of a chain of binary operators (both front ends)
+    for p in prefix:
+        for a, b in [('until', 'until'), ('since', 'and'), ('and', 'until'), ('or', 'since'), ('implies', 'unless')] + ([] if quick else [('add', 'leq'), ('sub', 'sub'), ('iff', 'xor')]):
+            ra, rp, rb = rank[LABEL[a]], rank[LABEL[p]], rank[LABEL[b]]
+            inner = (b, (p, Y), Z) if rp <= rb else (p, (b, Y, Z))         # what the prefix operator takes as its operand
+            if rp > rb or ra > rb:
+                f = (a, X, inner)
+            else:
+                f = (b, (a, X, (p, Y)), Z)
+            for front in ('stl', 'ltl'):
+                add('precedence-mid-%s' % front, f, 'out = ' + text(f), 'out = x %s %s y %s z' % (SYM[a], SYM[p], SYM[b]), front=front)
     # 7. unless sugar
     for a, b in [(0, 1), (1, 2), (0, 3), (2, 2)]:
         f = ('or', ('always_t', X, 0, b), ('until_t', X, Y, a, b))
